@@ -11,10 +11,7 @@ import (
 	"strconv"
 	"strings"
 
-	"github.com/spf13/viper"
-
 	"github.com/atlassian/gostatsd/pkg/backends/cloudwatch"
-	"github.com/atlassian/gostatsd/pkg/backends/stdout"
 
 	"verif/mon"
 )
@@ -226,9 +223,9 @@ func decodeStdoutLine(line string) (rec, string) {
 }
 
 func runStdout(e *env, cs *caseRef, w *workload, rng *rand.Rand) {
-	v := viper.New()
+	v := newCfg()
 	setDisabled(v, w.Disabled)
-	be, err := stdout.NewClientFromViper(v, e.logger, e.pool)
+	be, err := e.initBackend(cs, "stdout", v, rng)
 	if err != nil {
 		e.r.Inconclusive("stdout:factory-error")
 		return
